@@ -192,6 +192,15 @@ def gen_index(rng, shape, advanced=False, allow_none=True, unique_list=False, in
             k = rank - (n_items - j)
         n = shape[k] if k < rank else 1
         k += 1
+        if adv_at == j and n and rng.random() < 0.4:
+            # a 1-d boolean mask over this dim (at least one True; sometimes of the wrong length: IndexError)
+            ln = n if rng.random() < 0.9 else n + 1
+            bits = [rng.random() < 0.6 for _ in range(ln)]
+            if not any(bits):
+                bits[rng.randrange(ln)] = True
+            items.append(torch.tensor(bits))
+            proto.append(["mask"] + bits)
+            continue
         if adv_at == j:
             ln = rng.randint(1, 3)
             l = [rng.randrange(-n, n) if n else 0 for _ in range(ln)]
